@@ -273,6 +273,21 @@ def min_separation(pts):
     return m
 
 
+def far_crossing(PA, PB, ch):
+    """largest angular distance of a crossing from the start vertex of either edge it lies on"""
+    m = 0.0
+    for i in range(len(PA)):
+        a, b = PA[i], PA[(i + 1) % len(PA)]
+        for j in range(len(PB)):
+            c, d = PB[j], PB[(j + 1) % len(PB)]
+            if seg_cross(a, b, c, d):
+                o1, o2 = orient(c, d, a), orient(c, d, b)
+                t = o1 / (o1 - o2)
+                x = ch.to_sphere(a[0] + t * (b[0] - a[0]), a[1] + t * (b[1] - a[1]))
+                m = max(m, angle(x, ch.to_sphere(*a)), angle(x, ch.to_sphere(*c)))
+    return m
+
+
 def crossings(PA, PB):
     return sum(1 for i in range(len(PA)) for j in range(len(PB))
                if seg_cross(PA[i], PA[(i + 1) % len(PA)], PB[j], PB[(j + 1) % len(PB)]))
@@ -330,6 +345,10 @@ def place(rng, placement, planar, ang_radius):
             lon -= TWO_PI
     elif placement == "near_pole_outside":
         lon, lat = rng.uniform(-math.pi, math.pi), rng.choice([-1, 1]) * max(0.0, math.pi / 2 - 1.05 * ang_radius - rng.uniform(0, 0.05))
+    elif placement == "next_to_pole":          # the pole is a few polygon sizes away, outside
+        lon, lat = rng.uniform(-math.pi, math.pi), rng.choice([-1, 1]) * (math.pi / 2 - rng.uniform(1.3, 6.0) * ang_radius)
+    elif placement == "mid_latitude":
+        lon, lat = rng.uniform(-3.0, 3.0), rng.choice([-1, 1]) * rng.uniform(0.3, 1.2)
     elif placement == "equator_meridian":
         lon, lat = rng.uniform(-0.3, 0.3) * ang_radius, rng.uniform(-0.3, 0.3) * ang_radius
     else:  # pole_vertex: placed generically, then rotated so that vertex 0 sits exactly on a pole
@@ -356,9 +375,10 @@ def to_lonlat(pts, rng=None, pole_lon=None):
     return out
 
 
-def gen_polygon(rng, kind, n, placement):
+def gen_polygon(rng, kind, n, placement, ang_radius=None):
     """kind: 'convex' | 'star'. Returns dict(v=[[lon,lat]], pts=[unit vectors], kernel, planar=chart coords, ...)"""
-    ang_radius = rng.choice([0.02, 0.1, 0.3, 0.6, 1.0, 1.3]) * rng.uniform(0.6, 1.0)
+    if ang_radius is None:
+        ang_radius = rng.choice([0.02, 0.1, 0.3, 0.6, 1.0, 1.3]) * rng.uniform(0.6, 1.0)
     radius = math.tan(ang_radius)
     planar = planar_convex(rng, n, radius) if kind == "convex" else planar_star(rng, n, radius)
     if kind == "star" and planar_convex_cw(planar):
@@ -417,10 +437,10 @@ def classify(PA, PB):
     return "unclear", 0
 
 
-def finish_pair(rng, PA, PB, placement, ang_radius, margin, stream):
+def finish_pair(rng, PA, PB, placement, ang_radius, margin, stream, max_ang=1.35):
     if not (planar_convex_cw(PA) and planar_convex_cw(PB)):
         return None
-    if max(math.hypot(x, y) for x, y in PA + PB) > math.tan(1.35):
+    if max(math.hypot(x, y) for x, y in PA + PB) > math.tan(max_ang):
         return None
     rel, nx = classify(PA, PB)
     if rel == "unclear":
@@ -451,7 +471,9 @@ def finish_pair(rng, PA, PB, placement, ang_radius, margin, stream):
             "planar_a": PA, "planar_b": PB, "inter_ref": inter_ref, "chart": [lon, lat],
             "area_a_ref": fan_area(unit(tuple(sum(p[i] for p in A3) for i in range(3))), A3),
             "area_b_ref": fan_area(unit(tuple(sum(p[i] for p in B3) for i in range(3))), B3),
-            "cross_angle": min_cross_angle(PA, PB), "node_sep": node_sep}
+            "cross_angle": min_cross_angle(PA, PB), "node_sep": node_sep,
+            "max_edge": max(angle(P3[i], P3[(i + 1) % len(P3)]) for P3 in (A3, B3) for i in range(len(P3))),
+            "far_crossing": far_crossing(PA, PB, ch)}
 
 
 def gen_pair_near_parallel(rng, na, placement, margin, long_edges=False):
@@ -515,3 +537,19 @@ def gen_pair_near_vertex(rng, na, placement, margin):
     if shoelace(PB) > 0:
         PB = [p_in, p_out, third]
     return finish_pair(rng, PA, PB, placement, ang_radius, margin, "near_vertex")
+
+
+def gen_pair_large(rng, placement, margin):
+    """A is a convex triangle / quadrilateral with edges longer than 90 degrees (still inside the chart's hemisphere),
+    B any convex polygon placed so that it tends to cross A's long edges."""
+    rho_a = rng.uniform(1.25, 1.45)
+    PA = planar_convex(rng, rng.choice([3, 3, 4]), math.tan(rho_a))
+    rho_b = rng.uniform(0.5, 1.3)
+    rb = math.tan(rho_b)
+    # centre of B near the boundary of A: a random point on an edge of A, pulled a little inwards or outwards
+    i = rng.randrange(len(PA))
+    a, b = PA[i], PA[(i + 1) % len(PA)]
+    t = rng.uniform(0.1, 0.9)
+    c = ((a[0] + t * (b[0] - a[0])) * rng.uniform(0.7, 1.1), (a[1] + t * (b[1] - a[1])) * rng.uniform(0.7, 1.1))
+    PB = [(x + c[0], y + c[1]) for x, y in planar_convex(rng, rng.randint(3, 6), rb * rng.uniform(0.3, 1.0))]
+    return finish_pair(rng, PA, PB, placement, 1.0, margin, "large", max_ang=1.5)
